@@ -1,0 +1,126 @@
+//go:build verif
+
+package zygo
+
+import (
+	"sort"
+	"unsafe"
+)
+
+// Read-only accessors for the C03 harness (build tag verif): the real lookup structure
+// (live scope stack, captured stacks, parent chain) as plain data.
+
+// VerifScope describes one scope of a scope stack.
+type VerifScope struct {
+	ID                 uintptr  // identity of the scope object
+	IsFunction         bool     // Scope.IsFunction
+	TemplateHasClosing bool     // Scope.MyFunction != nil && it has captured scopes
+	Names              []string // sorted names bound in the scope (empty for the global scope)
+	Template           []uintptr // identities of the scopes captured by Scope.MyFunction, innermost first
+}
+
+func verifScopes(st *Stack) []VerifScope {
+	var out []VerifScope
+	if st == nil {
+		return out
+	}
+	for i := st.tos; i >= 0; i-- {
+		sc, ok := st.elements[i].(*Scope)
+		if !ok {
+			continue
+		}
+		v := VerifScope{ID: uintptr(unsafe.Pointer(sc)), IsFunction: sc.IsFunction,
+			TemplateHasClosing: sc.MyFunction != nil && sc.MyFunction.closingOverScopes != nil}
+		if sc.MyFunction != nil && sc.MyFunction.closingOverScopes != nil && sc.MyFunction.closingOverScopes.Stack != nil {
+			ts := sc.MyFunction.closingOverScopes.Stack
+			for j := ts.tos; j >= 0; j-- {
+				if tsc, ok := ts.elements[j].(*Scope); ok {
+					v.Template = append(v.Template, uintptr(unsafe.Pointer(tsc)))
+				}
+			}
+		}
+		if !sc.IsGlobal {
+			for num := range sc.Map {
+				v.Names = append(v.Names, sc.env.revsymtable[num])
+			}
+			sort.Strings(v.Names)
+		}
+		out = append(out, v)
+	}
+	return out
+}
+
+// VerifLiveScopes returns the live scope stack, innermost scope first.
+func (env *Zlisp) VerifLiveScopes() []VerifScope { return verifScopes(env.linearstack) }
+
+// VerifFn describes one function of the parent chain of the current function.
+type VerifFn struct {
+	ID         uintptr
+	Name       string
+	HasClosing bool
+	Closing    []VerifScope // captured stack, innermost scope first
+}
+
+// VerifCurFuncChain returns the current function followed by its parent chain.
+func (env *Zlisp) VerifCurFuncChain() []VerifFn {
+	var out []VerifFn
+	for f := env.curfunc; f != nil; f = f.parent {
+		v := VerifFn{ID: uintptr(unsafe.Pointer(f)), Name: f.name}
+		if f.closingOverScopes != nil {
+			v.HasClosing = true
+			v.Closing = verifScopes(f.closingOverScopes.Stack)
+		}
+		out = append(out, v)
+		if len(out) > 10000 {
+			break
+		}
+	}
+	return out
+}
+
+// VerifFuncID returns the identity and name of a function value.
+func VerifFuncID(sx Sexp) (uintptr, string, bool) {
+	f, ok := sx.(*SexpFunction)
+	if !ok {
+		return 0, "", false
+	}
+	return uintptr(unsafe.Pointer(f)), f.name, true
+}
+
+// VerifDataTop returns the top of the data stack (nil when empty).
+func (env *Zlisp) VerifDataTop() Sexp {
+	x, err := env.datastack.GetExpr(0)
+	if err != nil {
+		return nil
+	}
+	return x
+}
+
+// VerifInstrKind classifies the scope-relevant instructions; n is scopesToPop for break/continue.
+func VerifInstrKind(in Instruction) (kind string, n int) {
+	switch x := in.(type) {
+	case AddScopeInstr:
+		return "addscope", 0
+	case AddFuncScopeInstr:
+		return "addfuncscope", 0
+	case RemoveScopeInstr:
+		return "remscope", 0
+	case *BreakInstr:
+		return "break", x.scopesToPop
+	case *ContinueInstr:
+		return "continue", x.scopesToPop
+	case CreateClosureInstr:
+		return "closure", 0
+	case EnvToStackInstr:
+		return "envtostack", 0
+	case CallExprInstr:
+		return "callexpr", 0
+	case UpdateInstr:
+		return "update", 0
+	case PopStackPutEnvInstr:
+		return "putenv", 0
+	case PopScopeTransferToDataStackInstr:
+		return "popscope", 0
+	}
+	return "other", 0
+}
